@@ -11,6 +11,8 @@ Driver for the C06 correspondence stream `pass` and the T-ir checkers.  Requests
   oper <op> <e> <e>             -> <e> | err-assertion | err-TypeError    (OperExpr with broadcasting)
   dx <vars> <e> <k> <times> <par> -> <e> | err-…                      (Dx)
   phys1 <dim> <bf> <k>          -> <e>         (replace_physical_derivs on a first physical derivative of a basis function)
+  phys1g/phys2g/physD/ghtdef/physST/inderiv/symseq/predef … -> the branches of replace_physical_derivs, _geo_hess_trf,
+                                   insert_input_field_derivs and the predefined variables (Model/VFormPhys.lean)
   vec <bfs> <e>                 -> <e>                                (substitute_vec_components + ravel)
   keys <table> <roots>          -> class ids of all nodes in post-order (grouping of extract_common_expressions)
   inline <defs> <e>             -> <e>         (translation validation of CSE / trivial-variable elimination)
@@ -61,6 +63,42 @@ def request : P String := do
       | .ok r => pure (showExpr r)
       | .error s => pure s
   | "phys1" => do let dim ← nat; let b ← pBFun; let k ← nat; pure (showExpr (physToPara1 dim b k))
+  | "phys1g" | "phys2g" => do
+      -- atom: `B <bf>` or `V <name> <I>`
+      let dim ← nat
+      let kind ← tok
+      let atom ← (if kind == "B" then do let b ← pBFun; pure (bfAtom b)
+                  else do let v ← tok; let I ← list nat; pure (varAtom v I))
+      if op == "phys1g" then do let k ← nat; pure (showExpr (physToPara1G dim atom k))
+      else do let i ← nat; let j ← nat; pure (showExpr (physToPara2G dim atom i j))
+  | "physD" => do
+      let dim ← nat; let b ← pBFun; let D ← list nat
+      match physToParaG dim (bfAtom b) D with
+      | some e => pure (showExpr e)
+      | none => pure "err-assertion"
+  | "ghtdef" => do let dim ← nat; let a ← nat; let i ← nat; let j ← nat; pure (geoHessTrfName a i j ++ " " ++ showExpr (geoHessTrfDef dim a i j))
+  | "physST" => do
+      let dim ← nat; let b ← pBFun; let D ← list nat
+      match physToParaST dim b D with
+      | some e => pure (showExpr e)
+      | none => pure "err-assertion"
+  | "inderiv" => do
+      let dim ← nat; let nm ← tok; let I ← list nat; let D ← list nat
+      match insertInputDeriv dim nm I D with
+      | some e => pure (showExpr e)
+      | none => pure "none"
+  | "symseq" => do let n ← nat; let i ← nat; let j ← nat; pure (toString (symIndexToSeq n i j))
+  | "predef" => do
+      let what ← tok; let dim ← nat
+      match what with
+      | "Jac" => do let gd ← nat; pure (showExpr (jacDef dim gd))
+      | "JacInv" => pure (showExpr (jacInvDef dim))
+      | "GaussWeight" => pure (showExpr (gaussWeightDef dim))
+      | "W" => pure (showExpr (volumeWeightDef dim))
+      | "SW" => do let j ← tok; let r ← nat; let c ← nat; pure (showExpr (surfaceWeightDef dim j r c))
+      | "normal" => do let j ← tok; let r ← nat; let c ← nat; pure (showExpr (normalDef dim j r c))
+      | "BJac" => pure (showExpr (bjacDef dim))
+      | _ => failure
   | "vec" => do let bfs ← list pBFun; let e ← pExpr; pure (showExpr (substVec bfs e))
   | "keys" => do
       let t ← pKeyTable; let roots ← list pExpr
